@@ -493,10 +493,38 @@ def shape(t):
     return "N" if t[0] == "named" else ("L(%s)" % shape(t[1]) if t[0] == "list" else "%s!" % shape(t[1]))
 
 
+def underscore_names(d):
+    """Rename every non-root type `X` to `_X` (a legal GraphQL name; only `__` is reserved)."""
+    d = copy.deepcopy(d)
+    roots = {d.get("query"), d.get("mutation"), d.get("subscription")}
+    ren = {t["name"]: "_" + t["name"] for t in d["types"] if t["name"] not in roots}
+
+    def rt(t):
+        return ("named", ren.get(t[1], t[1])) if t[0] == "named" else (t[0], rt(t[1]))
+    for t in d["types"]:
+        t["name"] = ren.get(t["name"], t["name"])
+        t["interfaces"] = [ren.get(i, i) for i in t.get("interfaces", [])] if "interfaces" in t else t.get("interfaces")
+        if t.get("interfaces") is None:
+            t.pop("interfaces", None)
+        if "members" in t:
+            t["members"] = [ren.get(m, m) for m in t["members"]]
+        for f in t.get("fields", []):
+            f["type"] = rt(f["type"])
+            for a in f.get("args", []) or []:
+                a["type"] = rt(a["type"])
+    for dd in d["directives"]:
+        for a in dd["args"]:
+            a["type"] = rt(a["type"])
+    return d
+
+
 def one_case(ctx, seed, want=None):
     import random
     rng = random.Random(seed)
     d = gs.gen_schema(rng, size=rng.randint(1, 3))
+    if seed % 4 == 1:
+        d = underscore_names(d)
+        ctx.stat("underscore-prefixed-type-names")
     edit = rng.choice(EDITS) if want is None else [e for e in EDITS if e.__name__ == want][0]
     r = edit(rng, d)
     if r is None:
